@@ -1,0 +1,263 @@
+//go:build verif
+
+package rueidis
+
+// Exported wrappers around unexported parts of the package, for the external model-based verification harness.
+// Nothing in this file is compiled without the "verif" build tag.
+
+import (
+	"context"
+	"sync"
+	"sync/atomic"
+	"time"
+
+	"github.com/redis/rueidis/internal/cmds"
+)
+
+// ---------------------------------------------------------------------------------------------------- pool
+
+// VerifWire is a stub connection that implements just what pool.go uses of the wire interface.
+// Calling any other wire method panics (nil embedded interface), which is intended.
+type VerifWire struct {
+	wire
+	ID      int
+	err     atomic.Pointer[errs]
+	timerOK atomic.Bool // result of StopTimer
+	closed  atomic.Int32
+}
+
+func VerifNewWire(id int) *VerifWire {
+	w := &VerifWire{ID: id}
+	w.timerOK.Store(true)
+	return w
+}
+
+func (w *VerifWire) StopTimer() bool  { return w.timerOK.Load() }
+func (w *VerifWire) ResetTimer() bool { return true }
+func (w *VerifWire) Close()           { w.closed.Add(1) }
+func (w *VerifWire) Error() error {
+	if e := w.err.Load(); e != nil {
+		return e.error
+	}
+	return nil
+}
+func (w *VerifWire) SetError(err error) {
+	if err == nil {
+		w.err.Store(nil)
+	} else {
+		w.err.Store(&errs{error: err})
+	}
+}
+func (w *VerifWire) SetTimerExpired(expired bool) { w.timerOK.Store(!expired) }
+func (w *VerifWire) Closed() int                  { return int(w.closed.Load()) }
+
+// VerifAcquired is what pool.Acquire returned.
+type VerifAcquired struct{ w wire }
+
+// Kind is "wire" for a stub wire, "pooldead" for the pool's dead wire, "ctxdead" for a dead pipe made for a done context.
+func (a VerifAcquired) Kind() string {
+	switch v := a.w.(type) {
+	case *VerifWire:
+		if v.ID < 0 {
+			return "pooldead"
+		}
+		return "wire"
+	case *pipe:
+		return "ctxdead"
+	}
+	return "other"
+}
+func (a VerifAcquired) Stub() *VerifWire { v, _ := a.w.(*VerifWire); return v }
+func (a VerifAcquired) Error() error     { return a.w.Error() }
+
+type VerifPool struct {
+	p    *pool
+	Dead *VerifWire
+}
+
+// VerifNewPool builds a real pool whose connections are stub wires made by makeFn.
+func VerifNewPool(cap int, cleanup time.Duration, minSize int, makeFn func(ctx context.Context) *VerifWire) *VerifPool {
+	dead := VerifNewWire(-1)
+	dead.SetError(ErrClosing)
+	vp := &VerifPool{Dead: dead}
+	vp.p = newPool(cap, dead, cleanup, minSize, func(ctx context.Context) wire { return makeFn(ctx) })
+	return vp
+}
+func (v *VerifPool) Acquire(ctx context.Context) VerifAcquired { return VerifAcquired{w: v.p.Acquire(ctx)} }
+func (v *VerifPool) Store(a VerifAcquired)                     { v.p.Store(a.w) }
+func (v *VerifPool) Close()                                    { v.p.Close() }
+func (v *VerifPool) RemoveIdle()                               { v.p.removeIdleConns() }
+func (v *VerifPool) Is(obj any) bool                           { p, ok := obj.(*pool); return ok && p == v.p }
+
+// TryLock reports whether the pool mutex was free (and leaves it free).
+func (v *VerifPool) TryLock() bool {
+	m := v.p.cond.L.(*sync.Mutex)
+	if m.TryLock() {
+		m.Unlock()
+		return true
+	}
+	return false
+}
+
+// Snapshot takes the pool lock.
+func (v *VerifPool) Snapshot() (size, idle int, down bool) {
+	v.p.cond.L.Lock()
+	defer v.p.cond.L.Unlock()
+	return v.p.size, len(v.p.list), v.p.down
+}
+
+// VerifPoolState reads the pool fields without locking: for hooks that run with the pool lock held.
+func VerifPoolState(obj any) (size, idle int, down bool, ok bool) {
+	p, ok := obj.(*pool)
+	if !ok {
+		return 0, 0, false, false
+	}
+	return p.size, len(p.list), p.down, true
+}
+
+// ---------------------------------------------------------------------------------------------------- queue
+
+// VerifQueue drives a real ring or flowBuffer with commands identified by a string tag.
+type VerifQueue struct {
+	q    queue
+	Kind string
+}
+
+func VerifNewQueue(kind string, factor int) *VerifQueue {
+	if kind == "flowbuffer" {
+		return &VerifQueue{q: newFlowBuffer(factor), Kind: kind}
+	}
+	return &VerifQueue{q: newRing(factor), Kind: "ring"}
+}
+
+func (v *VerifQueue) Is(obj any) bool {
+	switch o := obj.(type) {
+	case *ring:
+		r, ok := v.q.(*ring)
+		return ok && r == o
+	case *flowBuffer:
+		b, ok := v.q.(*flowBuffer)
+		return ok && b == o
+	}
+	return false
+}
+
+// VerifTicket is the reply channel handed back by PutOne/PutMulti.
+type VerifTicket struct{ ch chan RedisResult }
+
+func (t VerifTicket) Valid() bool { return t.ch != nil }
+func (t VerifTicket) Same(o VerifTicket) bool {
+	return t.ch == o.ch
+}
+
+// Recv blocks until a result is delivered on the ticket and returns its string payload.
+func (t VerifTicket) Recv() string {
+	r := <-t.ch
+	return r.val.string()
+}
+
+// RecvCtx is Recv with cancellation.
+func (t VerifTicket) RecvCtx(ctx context.Context) (string, bool) {
+	select {
+	case r := <-t.ch:
+		return r.val.string(), true
+	case <-ctx.Done():
+		return "", false
+	}
+}
+
+func (v *VerifQueue) PutOne(ctx context.Context, tag string) (VerifTicket, error) {
+	ch, err := v.q.PutOne(ctx, cmds.NewCompleted([]string{tag}))
+	return VerifTicket{ch: ch}, err
+}
+
+func (v *VerifQueue) PutMulti(ctx context.Context, tags []string) (VerifTicket, *VerifResps, error) {
+	multi := make([]Completed, len(tags))
+	for i, t := range tags {
+		multi[i] = cmds.NewCompleted([]string{t})
+	}
+	resps := &VerifResps{s: make([]RedisResult, len(tags))}
+	ch, err := v.q.PutMulti(ctx, multi, resps.s)
+	return VerifTicket{ch: ch}, resps, err
+}
+
+// VerifResps is the result slice a PutMulti caller shares with the reader.
+type VerifResps struct{ s []RedisResult }
+
+func (r *VerifResps) Strings() []string {
+	out := make([]string, len(r.s))
+	for i := range r.s {
+		out[i] = r.s[i].val.string()
+	}
+	return out
+}
+
+func tagsOf(one Completed, multi []Completed) []string {
+	if multi == nil {
+		if c := one.Commands(); len(c) > 0 {
+			return []string{c[0]}
+		}
+		return nil
+	}
+	out := make([]string, len(multi))
+	for i, m := range multi {
+		out[i] = m.Commands()[0]
+	}
+	return out
+}
+
+// NextWriteCmd returns the tags of the command(s) handed to the writer (nil ticket when nothing is queued).
+func (v *VerifQueue) NextWriteCmd() ([]string, VerifTicket) {
+	one, multi, ch := v.q.NextWriteCmd()
+	if ch == nil {
+		return nil, VerifTicket{}
+	}
+	return tagsOf(one, multi), VerifTicket{ch: ch}
+}
+
+func (v *VerifQueue) WaitForWrite() ([]string, VerifTicket) {
+	one, multi, ch := v.q.WaitForWrite()
+	return tagsOf(one, multi), VerifTicket{ch: ch}
+}
+
+// VerifPending is what NextResultCh returned: the reader must Deliver and then FinishResult.
+type VerifPending struct {
+	Tags  []string
+	T     VerifTicket
+	resps []RedisResult
+}
+
+func (v *VerifQueue) NextResultCh() (VerifPending, bool) {
+	one, multi, ch, resps := v.q.NextResultCh()
+	if ch == nil {
+		return VerifPending{}, false
+	}
+	return VerifPending{Tags: tagsOf(one, multi), T: VerifTicket{ch: ch}, resps: resps}, true
+}
+
+// Deliver fills the shared results (multi) and sends the last result on the ticket, like the pipe's reader does.
+func (p VerifPending) Deliver(payloads []string) {
+	var last RedisResult
+	for i, s := range payloads {
+		last = NewResult(strmsg('+', s), nil)
+		if p.resps != nil && i < len(p.resps) {
+			p.resps[i] = last
+		}
+	}
+	p.T.ch <- last
+}
+
+func (v *VerifQueue) FinishResult() { v.q.FinishResult() }
+
+// VerifRingState reads the ring cursors and marks without locking (test-only diagnostic; racy by nature).
+func VerifRingState(obj any) (write, read1, read2 uint32, marks []int, ok bool) {
+	r, ok := obj.(*ring)
+	if !ok {
+		return
+	}
+	marks = make([]int, len(r.store))
+	for i := range r.store {
+		marks[i] = int(atomic.LoadUint32(&r.store[i].mark))
+	}
+	return atomic.LoadUint32(&r.write), r.read1, r.read2, marks, true
+}
